@@ -5,11 +5,11 @@ Driver commands of the layer-tree model (C09 / C10 / C14).
 
 cfg   : `current` | `legacy` | five 0/1 digits (itemSelfCheck groupLayersPrecheck climbToDoc
         invalidateOnEdit invalidateBelow)
-init  : `limit next` then `;`-separated nodes `id kind parent psd vis l,t,r,b cache dirty children`
-        (kind d|g|a|l, `_` = None, children `-` or `1,2,3`)
+init  : `limit next` then `;`-separated nodes `id kind parent psd vis l,t,r,b cache dirty children [blocks]`
+        (kind d|g|a|l, `_` = None, children `-` or `1,2,3`, blocks = tagged-block keys as numbers `-` or `1,2`)
 ops   : `;`-separated, tokens separated by blanks (see `parseOp`)
 answer: ok <step>|<step>|…   with step = `out#node;node;…` (every id < next),
-        node = `id kind children parent psd vis l,t,r,b cache dirty`
+        node = `id kind children parent psd vis l,t,r,b cache dirty blocks`
 -/
 import Driver.Util
 import PsdVerif.Model.TreeState
@@ -49,7 +49,7 @@ def parseCfg (s : String) : Option Cfg :=
 
 def words (s : String) : List String := (s.splitOn " ").filter (· != "")
 
-def addNode (s : State) (w : List String) : Option State :=
+def addNodeCore (s : State) (w : List String) : Option State :=
   match w with
   | [id, k, par, psd, vis, bx, cache, dirty, kids] => do
     let id ← id.toNat?
@@ -66,6 +66,15 @@ def addNode (s : State) (w : List String) : Option State :=
       psd := upd s.psd id psd, visible := upd s.visible id vis, box := upd s.box id bx,
       cache := upd s.cache id cache, dirty := upd s.dirty id dirty }
   | _ => none
+
+def addNode (s : State) (w : List String) : Option State :=
+  match w with
+  | [id, k, par, psd, vis, bx, cache, dirty, kids, blocks] => do
+    let s1 ← addNodeCore s [id, k, par, psd, vis, bx, cache, dirty, kids]
+    let id ← id.toNat?
+    let ks ← natList blocks
+    pure { s1 with blocks := upd s1.blocks id ks }
+  | _ => addNodeCore s w
 
 def parseInit (s : String) : Option State :=
   match s.splitOn ";" with
@@ -91,6 +100,7 @@ def parseObs (w : List String) : Option Obs :=
   | ["getitem", g, i] => do pure (.getitem (← g.toNat?) (← i.toInt?))
   | ["contains", g, x] => do pure (.contains (← g.toNat?) (← x.toNat?))
   | ["isvis", x] => x.toNat?.map .isVisible
+  | ["getter", x] => x.toNat?.map .getter
   | ["touch", xs] => (natList xs).map .touch
   | _ => none
 
@@ -118,6 +128,7 @@ def parseOp (w : List String) : Option Op :=
   | ["left", x, v] => do pure (.setLeft (← x.toNat?) (← v.toInt?))
   | ["top", x, v] => do pure (.setTop (← x.toNat?) (← v.toInt?))
   | ["attr", x] => do pure (.setAttr (← x.toNat?))
+  | ["setblocks", x, ks] => do pure (.setBlocks (← x.toNat?) (← natList ks))
   | "obs" :: rest => (parseObs rest).map .observe
   | _ => none
 
@@ -140,7 +151,8 @@ def showOut : Out → String
 
 def showNode (s : State) (x : Id) : String :=
   " ".intercalate [toString x, showKind (s.kind x), showNats (s.children x), showOptNat (s.parent x),
-    showOptNat (s.psd x), showBool (s.visible x), showBox (s.box x), showOptBox (s.cache x), showBool (s.dirty x)]
+    showOptNat (s.psd x), showBool (s.visible x), showBox (s.box x), showOptBox (s.cache x), showBool (s.dirty x),
+    showNats (s.blocks x)]
 
 def showState (s : State) : String := ";".intercalate ((List.range s.next).map (showNode s))
 
